@@ -7,6 +7,7 @@ SM = "pyhms.sprout.sprout_mechanisms.SproutMechanism."
 fields("FarEnough", min_distance="fl", norm_ord="int")
 fields("NBC_FarEnough", min_distance_factor="fl", norm_ord="int", check_only_active="bool")
 fields("DemeLimit", limit="int")
+fields("NBC_Generator", distance_factor="fl", truncation_factor="fl")
 fields("LevelLimit", limit="int")
 fields("SproutMechanism", candidates_generator="ref:SproutCandidatesGenerator", deme_filter_chain="list[ref:DemeLevelCandidatesFilter]",
        tree_filter_chain="list[ref:TreeLevelCandidatesFilter]",
@@ -69,7 +70,8 @@ GEN_POST = [
        "and fresh(result[result.keys()[k]].individuals) and kind(result[result.keys()[k]].individuals) == 0), pat=result.keys()[k])"),
     cl("from_the_current_population", "forall(lambda k: imp(0 <= k < len(result.keys()), "
        "forall(lambda j: imp(0 <= j < len(result[result.keys()[k]].individuals), "
-       "Member(result[result.keys()[k]].individuals[j], cur_pop(result.keys()[k]))))), pat=result.keys()[k])", tags="C10 C07"),
+       "Member(result[result.keys()[k]].individuals[j], cur_pop(result.keys()[k]))), pat=result[result.keys()[k]].individuals[j])), "
+       "pat=result.keys()[k])", tags="C10 C07"),
 ]
 fn(SG + "SproutCandidatesGenerator.__call__", abstract=True, params={"tree": "ref:DemeTree"},
    returns="dict[ref:AbstractDeme,ref:DemeCandidates]",
@@ -227,3 +229,64 @@ refine(SF + "LevelLimit.__call__", SF + "TreeLevelCandidatesFilter.__call__",
        loops={0: dict(index="lv", modifies=IND_FRAME, invariant=[c for c in KEYS_LOOP if c.label != "inv_untouched_yet"]),
               1: dict(index="s", modifies=IND_FRAME, invariant=[c for c in KEYS_LOOP if c.label != "inv_untouched_yet"] + [
                   cl("inv_level_demes", "forall(lambda t: imp(0 <= t < len(level_demes), level_demes[t] in candidates), pat=level_demes[t])")])})
+
+# ---- shipped generators against the abstract generator contract --------------------------------------------------------------------
+CL = "pyhms.utils.clusterization.NearestBetterClustering."
+ghost_fields(**{"$nbc_src": "list[ref:Individual]"})
+macro("nbc_src", ["c"], 'field(c, "$nbc_src", "list[ref:Individual]")')
+fn(CL + "__init__", params={"evaluated_individuals": "list[ref:Individual]", "distance_factor": "fl", "truncation_factor": "fl"},
+   modifies=[("$nbc_src", "o == self")], trusted=True,
+   ensures=[cl("remembers_its_population", "nbc_src(self) == evaluated_individuals")],
+   note="nearest-better clustering (treelib, NumPy): construction keeps the best part of the population")
+fn(CL + "cluster", returns="list[ref:Individual]", fresh_result=True, modifies=[], trusted=True,
+   ensures=[cl("members_of_the_population", "forall(lambda j: imp(0 <= j < len(result), Member(result[j], nbc_src(self))), pat=result[j]) "
+               "and kind(result) == 0", tags="C15 C10")],
+   note="the cluster seeds are individuals of the clustered population (C15 is checked by the bounded stand-in)")
+fn(CL + "distances", returns="list[fl]", pure=True, trusted=True, note="nearest-better distances recorded in the spanning tree")
+
+GEN_INV = [
+    cl("inv_acc", "fresh({acc}) and {acc} != None and {acc} == at_entry({acc})"),
+    cl("inv_records", "forall(lambda k: imp(0 <= k < len({acc}.keys()), {acc}.keys()[k] != None and {acc}[{acc}.keys()[k]] != None "
+       "and fresh({acc}[{acc}.keys()[k]]) and {acc}[{acc}.keys()[k]].individuals != None and {acc}[{acc}.keys()[k]].features != None "
+       "and fresh({acc}[{acc}.keys()[k]].individuals) and kind({acc}[{acc}.keys()[k]].individuals) == 0 "
+       "and cdict({acc}[{acc}.keys()[k]]) == {acc} and ckey({acc}[{acc}.keys()[k]]) == {acc}.keys()[k]), pat={acc}.keys()[k])"),
+    cl("inv_keys", "forall(lambda k: imp(0 <= k < len({acc}.keys()), InTree(tree, {acc}.keys()[k]) and {acc}.keys()[k]._active "
+       "and {acc}.keys()[k]._level + 1 < len(tree._levels)), pat={acc}.keys()[k])", tags="C10"),
+    cl("inv_from_population", "forall(lambda k: imp(0 <= k < len({acc}.keys()), forall(lambda j: imp(0 <= j < len({acc}[{acc}.keys()[k]].individuals), "
+       "Member({acc}[{acc}.keys()[k]].individuals[j], cur_pop({acc}.keys()[k]))), pat={acc}[{acc}.keys()[k]].individuals[j])), "
+       "pat={acc}.keys()[k])", tags="C10"),
+]
+
+
+def gen_inv(acc, extra=()):
+    return [cl(c.label, c.text.replace("{acc}", acc), " ".join(sorted(c.tags))) for c in GEN_INV] + list(extra)
+
+
+POPULATED = [cl("populated_demes", "forall(lambda l, i: imp(0 <= l < len(tree._levels) and 0 <= i < len(tree._levels[l]), "
+                "len(cur_pop(tree._levels[l][i])) > 0 and tree._levels[l][i]._level == l and lidx(tree._levels[l][i]) == i), pat=tree._levels[l][i])")]
+INNER = [cl("inv_level", "0 <= a and a < len(tree._levels) - 1 and level == tree._levels[a]")]
+refine(SG + "NBC_Generator.__call__", SG + "SproutCandidatesGenerator.__call__",
+       locals={"candidates": "dict[ref:AbstractDeme,ref:DemeCandidates]"},
+       requires=POPULATED,
+       ghost_after={"DemeCandidates@0": ["setg(_call_result, '$cdict', candidates)", "setg(_call_result, '$ckey', deme)"]},
+       loops={0: dict(index="a", modifies=[], local_frame=[("$dict", "o == candidates")], invariant=gen_inv("candidates")),
+              1: dict(index="b", modifies=[], local_frame=[("$dict", "o == candidates")], invariant=gen_inv("candidates", INNER))})
+
+# "the deme's current best": a member of the current population that no member beats (for evaluated members of one direction)
+macro("IsCurrentBest", ["x", "d"], """
+    Member(x, cur_pop(d)) and
+    imp(forall(lambda m: imp(0 <= m < len(cur_pop(d)), cur_pop(d)[m] != None and evaluated(cur_pop(d)[m])
+                                                         and inner(cur_pop(d)[m].problem) == inner(d._problem)), pat=cur_pop(d)[m]),
+        forall(lambda m: imp(0 <= m < len(cur_pop(d)), not ind_lt(x, cur_pop(d)[m])), pat=cur_pop(d)[m]))
+""")
+BEST = [cl("inv_exactly_the_current_best", "forall(lambda k: imp(0 <= k < len(cands.keys()), len(cands[cands.keys()[k]].individuals) == 1 "
+           "and IsCurrentBest(cands[cands.keys()[k]].individuals[0], cands.keys()[k])), pat=cands.keys()[k])", tags="C10")]
+refine(SG + "BestPerDeme.__call__", SG + "SproutCandidatesGenerator.__call__",
+       requires=POPULATED,
+       ghost_after={"DemeCandidates@0": ["setg(_call_result, '$cdict', cands)", "setg(_call_result, '$ckey', deme)"]},
+       loops={0: dict(index="a", acc="cands", acc_type="dict[ref:AbstractDeme,ref:DemeCandidates]", modifies=[],
+                      local_frame=[("$dict", "o == cands")], invariant=gen_inv("cands", BEST)),
+              1: dict(index="b", modifies=[], local_frame=[("$dict", "o == cands")], invariant=gen_inv("cands", BEST + INNER))},
+       ensures=[cl("proposes_exactly_the_current_best", "forall(lambda k: imp(0 <= k < len(result.keys()), "
+                   "len(result[result.keys()[k]].individuals) == 1 and "
+                   "IsCurrentBest(result[result.keys()[k]].individuals[0], result.keys()[k])), pat=result.keys()[k])", tags="C10 C13")])
